@@ -8,6 +8,9 @@ func unitDispatch(name string, args []string, out *bufio.Writer) bool {
 	case "unit-sketch":
 		unitSketch(args, out)
 		return true
+	case "conc-mpsc":
+		concMpsc(args, out)
+		return true
 	case "conc-drain":
 		concDrain(args, out)
 		return true
